@@ -16,7 +16,9 @@
 (*   C15  attempts <= maxretries+1, retries <= maxretries, no retry after  *)
 (*        a fatal outcome, no second transfer of an oid while one is armed *)
 (*        / in flight / unhandled, nothing requested or started before a   *)
-(*        Retry-After instant, back-off delay <= configured maximum.       *)
+(*        Retry-After instant, back-off delay <= configured maximum, and   *)
+(*        the collector never sleeps an ordinarily retried object past its *)
+(*        failure time + that maximum (col.sleep is the computed sleep).   *)
 (* Traces of many runs are concatenated; a "reset" line starts a new run.  *)
 (***************************************************************************)
 EXTENDS Integers, Sequences, FiniteSets, TLC, Json, IOUtils
@@ -32,17 +34,18 @@ VARIABLES l, maxret, nwatch,
           errd,       \* covered by a reported error
           wg, owed, pnew, aborted,
           retries, attempts, inflight, armed, awaiting, fatal,
-          expect, consumed, notBefore, laterRetry
+          expect, consumed, notBefore, laterRetry,
+          ordAt       \* oid -> time (ms) at which an ordinary (not Retry-After) retry was scheduled and not yet re-requested; -1: none
 
 vars == <<l, maxret, nwatch, known, marked, completed, noneed, errd, wg, owed, pnew, aborted, retries, attempts,
-          inflight, armed, awaiting, fatal, expect, consumed, notBefore, laterRetry>>
+          inflight, armed, awaiting, fatal, expect, consumed, notBefore, laterRetry, ordAt>>
 
 Zero == [o \in Oids |-> 0]
 
 Init == /\ l = 1 /\ maxret = 0 /\ nwatch = 1 /\ known = Zero /\ marked = {} /\ completed = {} /\ noneed = {} /\ errd = {}
         /\ wg = 0 /\ owed = 0 /\ pnew = 0 /\ aborted = FALSE /\ retries = Zero /\ attempts = Zero
         /\ inflight = {} /\ armed = {} /\ awaiting = {} /\ fatal = {} /\ expect = Zero /\ consumed = Zero
-        /\ notBefore = Zero /\ laterRetry = {}
+        /\ notBefore = Zero /\ laterRetry = {} /\ ordAt = [o \in Oids |-> -1]
 
 E == Trace[l]
 Is(e) == l <= Len(Trace) /\ E.ev = e /\ l' = l + 1
@@ -56,7 +59,7 @@ Reset == /\ Is("reset") /\ maxret' = E.n /\ nwatch' = (IF "w" \in DOMAIN E THEN 
          /\ notBefore' = Zero /\ laterRetry' = {}
 
 \* events the accounting does not depend on
-Nop == /\ IsIn({"add.call", "add.ret", "wait.call", "wait.done", "batch.call", "col.launch", "col.after", "obj.unknown.ignored"})
+Nop == /\ IsIn({"add.call", "add.ret", "wait.call", "wait.done", "batch.call", "col.launch", "col.after", "col.sleep", "obj.unknown.ignored"})
        /\ U(<<maxret, nwatch, known, marked, completed, noneed, errd, wg, owed, pnew, aborted, retries, attempts,
               inflight, armed, awaiting, fatal, expect, consumed, notBefore, laterRetry>>)
 
@@ -125,8 +128,9 @@ Retry == /\ Is("retry") /\ known[E.oid] > 0 /\ E.oid \notin marked /\ E.oid \not
          /\ awaiting' = awaiting \ {E.oid}
          /\ U(<<maxret, nwatch, known, marked, completed, noneed, errd, wg, owed, pnew, aborted, attempts, inflight,
                 armed, fatal, expect, consumed, notBefore, laterRetry>>)
-\* computed back-off (ms): capped by lfs.transfer.maxretrydelay (1 s in every run) — C15 DelayCapped
-RetryDelay == /\ Is("retry.delay") /\ E.n <= 1000
+\* computed back-off (ms): capped by lfs.transfer.maxretrydelay (1 s in every run) unless it is a Retry-After deferral (2 s in every run) — C15 DelayCapped
+RetryDelay == /\ Is("retry.delay")
+              /\ (E.n <= 1000 \/ E.oid \in laterRetry \/ notBefore[E.oid] > E.t)       \* a Retry-After wait is the server's, not capped
               /\ laterRetry' = laterRetry \ {E.oid}
               /\ U(<<maxret, nwatch, known, marked, completed, noneed, errd, wg, owed, pnew, aborted, retries, attempts,
                      inflight, armed, awaiting, fatal, expect, consumed, notBefore>>)
@@ -170,7 +174,16 @@ WgMatches == aborted \/ wg = Cardinality({o \in Oids : known[o] > 0 /\ o \notin 
 NoOverlap == (inflight \cap armed = {}) /\ (inflight \cap awaiting = {}) /\ (armed \cap awaiting = {})
 \* the invariants are evaluated on the state after every consumed event: a
 \* violation shows up as "no action matches this line" (one uniform verdict path)
-TraceNext == Next /\ WgMatches' /\ NoOverlap'
+\* ordinary retries in waiting (maintained beside the actions above, from the same event)
+CapMs == 1000      \* lfs.transfer.maxretrydelay of every run
+SlackMs == 100
+OrdStep == ordAt' = CASE E.ev = "reset" -> [o \in Oids |-> -1]
+                      [] E.ev = "retry.delay" -> [ordAt EXCEPT ![E.oid] = IF E.n <= CapMs THEN E.t ELSE -1]
+                      [] E.ev = "srv.obj" /\ E.oid \in Oids -> [ordAt EXCEPT ![E.oid] = -1]
+                      [] OTHER -> ordAt
+\* C15: the sleep the collector computes never carries an ordinarily retried object past the maximum wait
+SleepOk == E.ev = "col.sleep" => \A o \in Oids : ordAt[o] >= 0 => E.t + E.n <= ordAt[o] + CapMs + SlackMs
+TraceNext == l <= Len(Trace) /\ Next /\ OrdStep /\ SleepOk /\ WgMatches' /\ NoOverlap'
 Spec == Init /\ [][TraceNext]_vars
 Accepted  == TLCGet("stats").diameter - 1 = Len(Trace)
 =============================================================================
